@@ -496,3 +496,28 @@ def run(ctx):
                   "model": RL.coq_show(ctx, "corrR", "run_rcase (range_ew, range_ns)", rcases[i])}, concrete=False)
     if not built:
         ctx.obligations_failed("ran every shipped rule x content pool against the independent lexical classification")
+
+
+def replay(ctx, data):
+    """Re-run the recorded input on the implementation and re-judge it."""
+    import json
+    r = data.get("replay", {})
+    if r.get("kind") != "impl-vs-statement":
+        print(json.dumps(data, indent=1)[:4000])
+        return run(ctx)
+    if "installed_rule" in r:
+        ff, codes = RL.impl_rule(r["installed_rule"], r["mixed"], "x", r["content"], [], r["children"])
+        crs, enum = r["installed_rule"][2]["content_rules"], r["installed_rule"][2].get("content_enum")
+    else:
+        ff, codes = RL.impl_named_rule(r["rule"], "x", r["content"], [tuple(a) for a in r["attributes"]], r["children"])
+        crs, enum = r["content_rules"], r["content_enum"]
+    known = all(c in ("emptyContent", "floatContent", "floatRangeContent_EW", "floatRangeContent_NS", "floatContent_Nonnegative", "intContent",
+                      "nonEmptyContent", "strContent", "timeContent", "uriContent", "yearDateContent", "anyContent") for c in crs)
+    verdict, cls = expected(crs, enum, r["mixed"], r["content"], len(r["children"])) if known else (REJECT, "unknown-content-rule")
+    ccodes = [c for c in codes if c.startswith(CONTENT_CODES)]
+    print(f"content={r['content']!r} rules={crs} enum={enum} mixed={r['mixed']} children={r['children']}: expected {verdict} ({cls}); observed ff={ff} codes={codes}")
+    bad = (ff.startswith("CRASH") or any(c.startswith("CRASH") for c in codes) or (ff == "OK") != (codes == [])
+           or (verdict == ACCEPT and bool(ccodes)) or (verdict == REJECT and (not ccodes or ff == "OK")))
+    ctx.case()
+    if bad:
+        ctx.fail(data.get("key", "C02:replay"), data.get("what", "replayed input still contradicts the statement"), dict(r, observed_ff=ff, observed_codes=codes))
